@@ -282,6 +282,8 @@ type c07LogEntry struct {
 	Type  robust.Type
 	Raw   string
 	Msg   robust.Message
+	// Undecodable: the panic text when the stored bytes do not decode
+	Undecodable string
 }
 
 func c07ReadLog(dir string, pb bool) ([]c07LogEntry, error) {
@@ -299,8 +301,22 @@ func c07ReadLog(dir string, pb bool) ([]c07LogEntry, error) {
 		if err := st.GetLog(i, &l); err != nil {
 			continue
 		}
-		m := robust.NewMessageFromBytes(l.Data, robust.IdFromRaftIndex(l.Index))
-		out = append(out, c07LogEntry{Index: i, Type: m.Type, Raw: base64.StdEncoding.EncodeToString(l.Data), Msg: m})
+		// (the decoder of the repository panics on bytes it cannot decode: an entry of the durable log that does
+		// not decode is a finding about the entry, not a reason for the harness to die)
+		var m robust.Message
+		undecodable := ""
+		func() {
+			defer func() {
+				if r := recover(); r != nil {
+					undecodable = fmt.Sprint(r)
+					if len(undecodable) > 160 {
+						undecodable = undecodable[:160]
+					}
+				}
+			}()
+			m = robust.NewMessageFromBytes(l.Data, robust.IdFromRaftIndex(l.Index))
+		}()
+		out = append(out, c07LogEntry{Index: i, Type: m.Type, Raw: base64.StdEncoding.EncodeToString(l.Data), Msg: m, Undecodable: undecodable})
 	}
 	return out, nil
 }
@@ -388,6 +404,14 @@ func TestVerifC07(t *testing.T) {
 		*useProtobuf = c.Protobuf
 		for _, le := range entries {
 			o := orig[le.Index]
+			if le.Undecodable != "" {
+				kind := "an entry of the durable log does not decode after the crash"
+				if le.Index == crashId {
+					kind = "the marked entry in the durable log does not decode"
+				}
+				rep(kind, fmt.Sprintf("index %d: %s", le.Index, le.Undecodable))
+				continue
+			}
 			if le.Index == crashId {
 				if le.Type != robust.MessageOfDeath {
 					rep("crashing entry is not marked as message of death in the durable log", fmt.Sprintf("index %d has type %s", le.Index, le.Type))
